@@ -7,7 +7,6 @@ namespace Dltype.Prov
 
 theorem expand_is_the_modelled_source : Gen.Src.srcExpand = [
   ("_ConcreteType.tensor_arg_name", ["def(self) @property", "return f'{self.tensor_arg_name_orig}[{self.arg_index}]' if self.arg_index > 0 else self.tensor_arg_name_orig"]),
-  ("_ConcreteType.get_expected_shape", ["def(self, tensor)", "expected_shape = list(self.dltype_annotation.expected_shape)", "if self.dltype_annotation.multiaxis_index is not None:\n    actual_shape = tensor.shape\n    multi_axis_offset = len(actual_shape) - len(expected_shape) + 1\n    expected_shape.pop(self.dltype_annotation.multiaxis_index)\n    for i in range(multi_axis_offset):\n        expected_shape.insert(self.dltype_annotation.multiaxis_index + i, _parser.DLTypeDimensionExpression.from_multiaxis_literal(f'{self.dltype_annotation.multiaxis_name}[{i}]', actual_shape[self.dltype_annotation.multiaxis_index + i], is_anonymous=self.dltype_annotation.anonymous_multiaxis))", "return tuple(expected_shape)"]),
   ("DLTypeContext.__init__", ["def(self)", "self._hinted_tensors = deque()", "self.tensor_shape_map = {}", "self.registered_tensor_dtypes = {}"])] := by
   rfl
 
